@@ -10,10 +10,12 @@ model -> code : spec/MatrixCalculus.tla (on top of the contract LinSolve.tla)
                 products, determinant and 2x2 inverses), runs the REAL
                 routines and compares values and derivatives.  Polynomial maps
                 differentiated term-wise by TLC are the oracle of the
-                Jacobian/Hessian helpers.  On the LinSolve cases the
-                hand-specialised float paths (gaussJordan_optimized,
-                cholesky_float64/32, also LDL/ForcePD) are compared with the
-                generic scalar-interface path on equal input.
+                Jacobian/Hessian helpers, for evaluation points in every
+                derivative state named by the contract (PointStates).  On the
+                LinSolve cases the hand-specialised float paths
+                (gaussJordan_optimized, cholesky_float64/32 in every option
+                combination, on definite and indefinite symmetric input) are
+                compared with the generic scalar-interface path on equal input.
 """
 import json
 
@@ -74,6 +76,18 @@ def run(ctx):
     base.report(ctx, mism, "replay")
     total2, mism2 = base.run_driver(ctx, binary, "c06", cases, "c06m", procs=t["procs"])
     base.report(ctx, mism2, "replay")
+    # vacuity: every evaluation-point state of the contract was built and handed to the helpers, and the
+    # Cholesky option variants ran on definite AND indefinite symmetric input (failing alike / modified factor)
+    cnt, cnt2 = total["counts"], total2["counts"]
+    for st in ("fresh", "slice_o1", "slice_o2", "computed_o1", "computed_o2", "sameN_o1", "sameN_o2"):
+        if cnt.get("point_state:" + st, 0) == 0:
+            raise vlib.Infra("vacuity: evaluation-point state %s never reached the Jacobian/Hessian helpers" % st)
+    for k in ("agree:cholesky/default:ok", "agree:cholesky/default:error", "agree:cholesky/ldl:ok", "agree:cholesky/ldl:error",
+              "agree:cholesky/ldl+forcepd:ok", "agree:cholesky/ldl+forcepd+insitu_dirty/D:ok", "agree:cholesky/forcepd:ok"):
+        if cnt2.get(k, 0) == 0:
+            raise vlib.Infra("vacuity: no fast-vs-generic comparison of kind " + k)
+    if fam.get("sym3", 0) == 0 or fam.get("sym4", 0) == 0:
+        raise vlib.Infra("vacuity: no symmetric indefinite inputs: %s" % fam)
     ctx.log("replayed %d derivative cases (%d checks) and %d matrices fast-vs-generic (%d checks), %d mismatch records" % (
         total["cases"], total["checks"], total2["cases"], total2["checks"], len(mism) + len(mism2)))
     if total["cases"] != res.json_count or total2["cases"] != res2.json_count:
@@ -87,6 +101,8 @@ def run(ctx):
         ctx.sample({"replayed_case": s})
     ctx.extra["replay"] = {"derivative_cases": kinds, "derivative_families": fams, "order2_inverse_cases": o2inv,
                            "triangular_derivative_cases": ntri, "fast_vs_generic_matrices": total2["cases"],
+                           "point_states": {k: v for k, v in cnt.items() if k.startswith("point_state")},
+                           "cholesky_option_runs": {k[6:]: v for k, v in cnt2.items() if k.startswith("agree:cholesky")},
                            "checks": total["checks"] + total2["checks"]}
     ctx.extra["bounds"] = {"tier_constants": t, "element_types": {"derivatives": ["Real64", "Real32"],
                                                                   "fast_vs_generic": ["Float64 vs Real64", "Float32 vs Real32"],
@@ -95,7 +111,11 @@ def run(ctx):
                            "orders": "1 everywhere; 2 for MdotM, determinant, inverse of n<=2, Hessian helper",
                            "tolerance": "values 1e-9 (1+|x|) kappa; derivatives 1e-9 (1+|d|) kappa^2 (order 2: kappa^3); "
                                         "32 bit: 1e-4; fast vs generic 16 u kappa (1+|x|)",
-                           "polynomials": "maps R^3->R^3, three terms each, exponents 0..2, coefficients {-2,-1,1,2,3}, points in halves"}
+                           "polynomials": "maps R^3->R^3, three terms each, exponents 0..2, coefficients {-2,-1,1,2,3}, points in halves; "
+                                          "each point in 7 derivative states (fresh, slice of an activated vector order 1/2, computed from "
+                                          "other variables order 1/2, same N reversed layout order 1, same N computed order 2)",
+                           "cholesky_options": "plain, ForcePD, LDL, LDL+ForcePD x default/fresh/dirty buffers on every symmetric case "
+                                               "(SPD family and the indefinite family sym n=3,4), Float64 vs generic and Float32 vs generic"}
     ctx.traces += total["cases"] + total2["cases"]
     return ctx.finish(
         rule="one case per (matrix, activated entries) printed by TLC from MatrixCalculus.tla with its exact derivative tables "
@@ -136,9 +156,12 @@ MANIFEST = {
             "(Gauss-Jordan and Cholesky paths, re-used buffers), gaussJordan (entries of A and b as variables), "
             "backSubstitution, determinant (+PositiveDefinite, LogScale), cholesky, MdotM and compares values with the exact "
             "ones (hence with the float run) and GetDerivative/GetHessian with the tables. Jacobian/Hessian helpers of all four "
-            "dense matrix types are run on polynomial maps differentiated by TLC. On every LinSolve case the DenseFloat64 "
-            "Gauss-Jordan and the float32/float64 Cholesky (plain, LDL, ForcePD) paths must agree with the generic path to "
-            "16 u kappa. QR algorithm / eigensystem / SVD / Gram-Schmidt / Hessenberg derivative propagation is not covered here.",
+            "dense matrix types are run on polynomial maps differentiated by TLC, with the evaluation point in seven derivative "
+            "states (fresh, slice of a larger activated vector, computed from other variables, same number of variables in "
+            "another layout; orders 1 and 2): the helpers must return the derivatives with respect to their argument whatever it "
+            "carries. On every LinSolve case the DenseFloat64 Gauss-Jordan and, on every symmetric case (SPD and indefinite "
+            "families), the float32/float64 Cholesky paths in every option combination (plain, ForcePD, LDL, LDL+ForcePD; "
+            "default, fresh and dirty buffers) must agree with the generic path in outcome and to 16 u kappa. QR algorithm / eigensystem / SVD / Gram-Schmidt / Hessenberg derivative propagation is not covered here.",
     "note": "Trusted: TLC, CommunityModules Json, Rat.tla, the Go driver's comparison code. Partial with respect to the property's "
             "quantifier: the iterative factorisations are outside this check.",
     "design_ref": "DESIGN.md section 5 (C06), section 4 (MatrixCalculus)",
